@@ -11,7 +11,7 @@ def run(c):
     builds = [("std-rel", 0), ("nostd-sse2", 0), ("nostd-ssse3", 0), ("nostd-aes", 0)] + ([("std-dbg", 0)] if c.thorough else [])
     pin = PIN if not c.thorough else set(range(0, 256, 3)) | PIN
     digest_common.run_digests(c, "groestl", "TraceGroestl", None, builds, pin=(["Groestl224", "Groestl256", "Groestl384", "Groestl512"], pin))
-    c.cov["rule"] = ("one-shot digests of Groestl224/256/384/512 for message lengths 0..2*block+17 (all in thorough; the <=8-bytes-left boundary that adds a padding block, block "
+    c.cov["rule"] = ("one-shot digests of Groestl224/256/384/512 for message lengths 0..2*block+17 (0..4*block+17, three passes with rotating content kinds in thorough; the <=8-bytes-left boundary that adds a padding block, block "
                      "multiples and a rotating subset in quick) and longer random messages; TLC recomputes each with Groestl.tla: the byte-matrix definition (AES S-box derived from "
                      "GF(2^8) inversion + affine map, ShiftBytes for P and Q, MixBytes circulant, P(h+m)+Q(m)+h, output transformation, padding with the block count), independent of the "
                      "implementation's AES-NI bit-sliced form. Groestl.tla is pinned by NIST ShortMsgKAT entries from the repository's data files.")
